@@ -179,6 +179,7 @@ Definition shape_ok (shape : string) (p : cbor) : bool :=
   else if String.eqb shape "tag259" then match p with CTag 259 _ => true | _ => false end
   else if String.eqb shape "tag" then match p with CTag _ _ => true | _ => false end
   else if String.eqb shape "output" then match p with CA _ => true | CAi _ => true | CM _ => true | _ => false end
+  else if String.eqb shape "auxdata" then match p with CTag 259 _ => true | CA _ => true | CAi _ => true | CM _ => true | _ => false end
   else if String.eqb shape "any" then true
   else false.
 
@@ -210,7 +211,7 @@ Section DecFields.
     | Some c =>
         match is_list_prim p with
         | Some ps => do vs <- mapM (deccls c) ps; Ok (VList vs)
-        | None => EOther "object_hook on a non-list"
+        | None => match p with CS 22 => Ok VNone | _ => EOther "object_hook on a non-list" end
         end
     | None => dec1 (fty f) p
     end.
@@ -329,7 +330,7 @@ Fixpoint from_prim (S : schema) (n : nat) (t : ty) (p : cbor) {struct n} : res p
         | Some (KEnum vals) =>
             match as_int_opt p with
             | Some z => if existsb (Z.eqb z) vals then Ok (VEnum c z) else EOther "ValueError"
-            | None => EOther "ValueError"
+            | None => EDeser
             end
         | Some (KOpaque shape) => if shape_ok shape p then Ok (VOpq c p) else EDeser
         | None => EOther "unknown class"
